@@ -120,6 +120,16 @@ func TestC04_Schedules(t *testing.T) {
 		// address (IPv4, IPv6, IPv6 with zone) is one source whatever connection (port) it uses
 		byIP := rapid.IntRange(0, 3).Draw(t, "byClientIP") == 0
 		ipOf := map[string]string{"a": "10.1.2.3", "b": "[2001:db8::7]", "c": "[fe80::1%eth0]"}
+		if byIP {
+			// peers that differ only in their zone, or only in the address within one zone, are different
+			// clients; so are an IPv4 peer and the IPv6 peer that merely embeds its address
+			ipOf = rapid.SampledFrom([]map[string]string{
+				ipOf,
+				{"a": "[fe80::1%eth0]", "b": "[fe80::1%eth1]", "c": "[fe80::2%eth0]"},
+				{"a": "[fe80::1%eth0.100]", "b": "[fe80::1]", "c": "[fe80::1%en-0_1]"},
+				{"a": "192.0.2.1", "b": "[64:ff9b::c000:201]", "c": "192.0.2.10"},
+			}).Draw(t, "peers")
+		}
 		inner := newLimiter(t, gate, int64(limit))
 		if byIP {
 			ex, err := utils.NewExtractor("client.ip")
